@@ -105,10 +105,6 @@ func TestVerifC02(t *testing.T) {
 		c02RunHistory(rep, vMkdir(scratch, "replay"), c.Ops, queries, true)
 		return
 	}
-	if w := kit.Getenv("VERIF_C02_VOLUME", ""); w != "" {
-		c02WideVolume(t, scratch, w)
-		return
-	}
 	if c02StageWanted("narrow") {
 		c02NarrowStage(rep, scratch, queries)
 	}
